@@ -32,6 +32,7 @@ fuzz_target!(|data: &[u8]| {
             4..=5 => Op::Flush,
             6..=9 => Op::Reap,
             10..=12 => Op::KConsume(1 + (b >> 4) % 8),
+            13 => Op::KFlags((b >> 4) % 8),
             _ => Op::KPost(1 + (b >> 4) % 9),
         });
     }
